@@ -54,6 +54,39 @@ func intsStr(l []int) string {
 	return strings.Join(s, ",")
 }
 
+// refShuffle: the arrangement Fisher-Yates produces from the draws of the stream (reference, written
+// from the property): position p of the result holds the caller's element refShuffle[p]
+func refShuffle(n int, stream []byte) ([]int, bool) {
+	arr := make([]int, n)
+	for i := range arr {
+		arr[i] = i
+	}
+	for i := n - 1; i > 0; i-- {
+		j, rest, ok := refUint32n(uint32(i+1), stream)
+		if !ok {
+			return nil, false
+		}
+		stream = stream[len(stream)-rest:]
+		arr[i], arr[j] = arr[j], arr[i]
+	}
+	return arr, true
+}
+
+// shuffleOrderFailure compares the header position of every recipient (found with the reference
+// receiver) with the reference shuffle of the caller's order under the pinned randomness
+func shuffleOrderFailure(key string, rng []byte, pos []int) *Failure {
+	want, ok := refShuffle(len(pos), rng)
+	if !ok {
+		return nil
+	}
+	for p, ci := range want {
+		if pos[ci] != p {
+			return &Failure{Kind: "oracle", Key: key, Desc: fmt.Sprintf("recipient order in the header is not the Fisher-Yates arrangement of the caller's order under the drawn randomness: caller index %d sits at header position %d, reference puts it at %d (reference arrangement %v)", ci, pos[ci], p, want)}
+		}
+	}
+	return nil
+}
+
 func implShuffle(n int, stream []byte) (perm []int, rest int, err error) {
 	perm = make([]int, n)
 	for i := range perm {
